@@ -1816,6 +1816,10 @@ func buildCache(typ reflect.Type, cache map[string][]int, parent []int) {
 				buildCache(typ, cache, index)
 			}
 		}
-		cache[field.Name] = index
+		// as in Go, the field at the shallowest depth wins: a promoted field never
+		// hides a field of the outer struct, whatever the declaration order
+		if existing, ok := cache[field.Name]; !ok || len(index) < len(existing) {
+			cache[field.Name] = index
+		}
 	}
 }
